@@ -81,6 +81,8 @@ Definition ext_status (L : layout) (raw : bytes) : option (Z * option Z) :=
   | None => None
   end.
 
+Definition ext_value (e : option (Z * option Z)) : option Z := match e with Some (_, v) => v | None => None end.
+
 (* sub-list containment *)
 Fixpoint is_prefix (p s : list Z) : bool :=
   match p, s with
